@@ -253,6 +253,13 @@ inline bool mutate(std::vector<OutPdu> &r, int mut, int pos, int ver, const std:
 		insert_at(idx, p);
 		return true;
 	}
+	case M_PREFIX_BADVER: { // a header-only PDU with an unsupported version first; the rest of the answer follows
+		OutPdu p;
+		static const uint8_t vs[] = {2, 3, 255, 7};
+		p.b = wire::cache_reset(vs[seed % 4]);
+		insert_at(0, p);
+		return true;
+	}
 	case M_EOD_OTHER_FORMAT: {
 		if (r.back().b[1] != wire::EOD) return false;
 		wire::Bytes &e = r.back().b;
